@@ -121,6 +121,14 @@ var overlapSel = []string{
 	`n: name(short: true)`, `tags`, `...PF`, `... on Pet { n: kind }`, `owner { ... on Person { id: age } }`, `name(short: $t)`, `name(short: $u)`,
 }
 
+var overlapArgs = []string{
+	`s: search { __typename }`, `s: search(ks: [DOG]) { __typename }`, `s: search(ks: [CAT]) { __typename }`, `s: search(ks: [DOG, CAT]) { __typename }`, `s: search(ks: DOG) { __typename }`,
+	`s: search(f: {req: true}) { __typename }`, `s: search(f: {req: false}) { __typename }`, `s: search(f: {req: true, name: "a"}) { __typename }`, `s: search(f: {req: true, sub: {req: true}}) { __typename }`,
+	`s: search(f: {req: true, sub: {req: false}}) { __typename }`, `s: search(q: "x") { __typename }`, `s: search(q: "y") { __typename }`, `s: search(q: """x""") { __typename }`, `s: search(q: $a) { __typename }`, `s: search(q: $b) { __typename }`,
+	`s: search(n: 1) { __typename }`, `s: search(n: 2) { __typename }`, `s: search(q: "x", n: 1) { __typename }`, `s: search(n: 1, q: "x") { __typename }`, `s: search(q: null) { __typename }`, `s: search(fl: 1) { __typename }`, `s: search(fl: 1.0) { __typename }`,
+	`s: pet { id }`, `s: search { ... on Pet { id } }`, `s: id`,
+}
+
 var litMenu = []string{
 	`1`, `2147483647`, `2147483648`, `-2147483649`, `9223372036854775808`, `1.5`, `1e400`, `"s"`, `"""b"""`, `true`, `null`, `DOG`, `BAD`, `$v`, `[1]`, `[1, "s"]`, `[[1]]`, `[null]`, `[DOG]`, `[DOG, BAD]`, `[[DOG]]`,
 	`{}`, `{req: true}`, `{req: true, name: 1}`, `{req: true, zz: 1}`, `{req: true, req: false}`, `{name: "a"}`, `{req: null}`, `{req: true, sub: {req: true}}`, `{req: true, sub: {}}`,
@@ -145,9 +153,12 @@ var ValidProfiles = []Profile{
 			`fragment A on Person { ...B } fragment B on Person { ...A } fragment C on Person { id }`,
 			`fragment A on Person { friend { ...B } } fragment B on Person { friend { ...C } } fragment C on Person { friend { ...A } }`,
 			`fragment A on Person { n: name ...B } fragment B on Person { n: age ...C } fragment C on Person { n: id ...A }`,
-			`fragment A on Person { ...A } fragment B on Person { id } fragment C on Person { ...B ...B }`},
+			`fragment A on Person { ...A } fragment B on Person { id } fragment C on Person { ...B ...B }`,
+			`fragment A on Person { n: age } fragment B on Person { n: nick } fragment C on Person { id }`,
+			`fragment A on Person { n: age friend { ...B } } fragment B on Person { n: nick m: id } fragment C on Person { m: name }`},
 		{`...A`, `...B`, `...C`, `id`}, {`...B`, `...A`, `...C`, `id`}, {`...A ...B`, `...A`, `...B ...C`, `...C ...A`, `id`}, {`...B`, `...C`, `id`},
 	}},
+	{Name: "overlap-arguments", Template: `query Q($a: String, $b: String) { §0 §1 u: search(q: $a) { __typename } v: search(q: $b) { __typename } }`, Holes: [][]string{overlapArgs, overlapArgs}},
 	{Name: "arguments", Template: `query Q($k: Kind, $i: Int) { §0 §1 }`, Holes: [][]string{
 		{`node(id: 1) { id }`, `node { id }`, `node(idd: 1) { id }`, `node(id: 1, id: 2) { id }`, `node(id: null) { id }`, `node(id: $i) { id }`, `node(id: "x", extra: 1) { id }`},
 		{`req(a: 1)`, `req`, `req(b: 1)`, `req(a: 1, b: null)`, `req(a: null)`, `req(a: $i)`, `req(a: 1, b: $i)`, `pet(kind: CAT) { id }`, `pet(kind: BAD) { id }`, `pet(kind: "DOG") { id }`, `pet(kind: 1) { id }`, `pet(kind: null) { id }`, `pet(kind: $k) { id }`, `pet(kind: $i) { id }`, `req(a: 1, a: 2)`, `id(x: 1)`, `r: req(a: $k)`},
